@@ -357,7 +357,8 @@ impl DateFilter for ds::MonthdayRange {
                     }
                 };
 
-                Some(next_change_from_bounds(date, [start], [end]))
+                // Bounds are inclusive: the range ends on the day before the following month
+                Some(next_change_from_bounds(date, [start], [end.pred_opt()?]))
             }
             ds::MonthdayRange::Date {
                 start:
